@@ -74,6 +74,21 @@ def r13_1(ctx, R):
                         found = (l, inc, inits[0], exit_tgt)
             ok = found is not None
             det = "no budget counter found"
+            if found is None:
+                # range form: `for _ in 0..MAX { .. child poll .. }` then self-wake and Pending
+                for (h2, body2, nbb, tgt, lo, hi) in range_budgets(ctx, d):
+                    if h2 != head:
+                        continue
+                    counted = all(not _cycle_avoiding(d, body, head, p, {nbb}) for p in inside)
+                    wakes = [bb for bb, t, fn in R.task_wake_sites(d)]
+                    pend = pending_assign_blocks(d)
+                    wake_ok = any(d.dominates(tgt, w) for w in wakes) and d.must_pass(tgt, d.returns(), [w for w in wakes if d.dominates(tgt, w)])
+                    pend_ok = any(d.dominates(tgt, p) for p in pend)
+                    ok = counted and wake_ok and pend_ok and hi - lo >= 1
+                    det = "range form %d..%d at %s; every polling cycle passes next(): %s; exhaustion edge -> self-wake: %s, Pending: %s" % (
+                        lo, hi, d.loc(nbb), counted, wake_ok, pend_ok)
+                ctx.ob("R13.1", d, "child-poll-loop-is-budgeted@head-ord%d" % sorted(loops).index(head), ok, d.loc(head), det)
+                continue
             if found:
                 l, inc, init, (sb, tgt, bound, cmp_op) = found
                 wakes = [bb for bb, t, fn in R.task_wake_sites(d)]
@@ -107,6 +122,32 @@ def r13_1(ctx, R):
             ctx.ob("R13.1", b, "redrain-loop-only-after-removing-a-source", ok, b.loc(head),
                    "back-edge tails %s; REMOVE sites %s" % (tails, [b.loc(r) for r in rems]))
     ctx.floor("R13.1", "merge-redrain-loops", m, 1)
+
+
+def range_budgets(ctx, d):
+    """Loops driven by `for _ in LO..HI` with constant bounds: [(head, body, next_bb, exit_tgt, lo, hi)]."""
+    fl = ctx.flow(d)
+    out = []
+    from lib_facts import place_str
+    for head, body in d.loops().items():
+        for bb, t, fn in d.calls():
+            if bb not in body or fn is None or d.is_cleanup(bb):
+                continue
+            nm = fn_name(fn) or ""
+            if not ("Range" in nm and nm.endswith("::next")):
+                continue
+            it = strip_refs(fl.operand_expr(t["args"][0]))
+            while it[0] == "call" and (it[1] or "").endswith("into_iter"):
+                it = strip_refs(it[2][0])
+            if not (it[0] == "agg" and it[1].endswith("Range::Range") and it[2][0][0] == "const" and it[2][1][0] == "const"):
+                continue
+            dest = place_str(t["dest"])
+            for sb in body:
+                for tgt, labs in fl.edge_labels(sb).items():
+                    for lab in labs:
+                        if lab[0] == "variant" and place_str(lab[3]) == dest and lab[2] == "None" and tgt not in body:
+                            out.append((head, body, bb, tgt, int(it[2][0][2]), int(it[2][1][2])))
+    return out
 
 
 def _cycle_avoiding(d, body, head, poll, avoid):
